@@ -3,7 +3,8 @@ sys.path.insert(0, os.path.dirname(os.path.abspath(__file__)))
 from common import *
 PROPERTY = 'C05'
 MODES = {0: 'no parent at all', 1: 'explicit valid SpanContext', 2: 'explicit Context holding a valid span', 3: 'explicit root Context while another span is active',
-         4: 'active span on the thread', 5: 'explicit invalid SpanContext while a span is active'}
+         4: 'active span on the thread', 5: 'explicit invalid SpanContext while a span is active',
+         6: 'explicit Context with no span and not marked root (empty or is_root_span=false) while a span is active'}
 def h(mode):
     return dict(src='c05_tracer.cc', defines=['PARENT_MODE=%d' % mode, 'OTEL_INTERNAL_LOG_LEVEL=0'], overrides=TS_OVERRIDES + [SP_RELEASE],
                 models=TS_MODELS + ['libc.c', 'cxxrt.c', 'stdstring.c', 'single_threaded.c', 'pthread_clock.c', SP_LEAK_MODEL], gen_models=gen_regex_tables)
@@ -12,7 +13,7 @@ HARNESSES = {}; QUERIES = []
 for mode in MODES:
     HARNESSES['c05_p%d' % mode] = h(mode)
     QUERIES.append(dict(name='start_span_parent%d' % mode, harness='c05_p%d' % mode, entry='h_start_span', unwind=18, unwindset=US, rec_unwind=3, timeout=1500,
-                        tier='quick' if mode in (0, 1, 4) else 'thorough',
+                        tier='quick' if mode in (0, 1, 4, 6) else 'thorough',
                         shape='%s; every parent id/flags byte/remote bit, every sampler decision, sampler trace state given or not, generator ids symbolic non-zero, IsRandom symbolic' % MODES[mode]))
 BOUNDS = ['one StartSpan (+End) per query; the six parenting situations are separate queries']
 OUTSIDE = ['RandomIdGenerator output being non-zero (probabilistic, not a for-all statement)', 'several threads / thread_local isolation (language guarantee)', 'span links and attributes passed to StartSpan',
